@@ -101,6 +101,10 @@ def grid_cases(draw, classes=gg.ALL_CLASSES, max_cells=8, max_total=512):
                 spec["radius"] = [zero, _pair(draw, num, positive=True)[1]]
             if cls == "cyl":
                 spec["bounds_z"] = _pair(draw, num)
+    elif cls in SYM and spec["radius"][0] > 0 and draw(st.integers(0, 4)) == 0:
+        # tiny but non-zero inner radius: still a hole (the library's own tests use 1e-8);
+        # added after the independently seeded change C14-2 (np.isclose(r_inner, 0)) was missed
+        spec["radius"] = [draw(st.sampled_from([1e-8, 1e-10, 1e-12, 1e-100])), spec["radius"][1]]
     var = {
         "radius": draw(st.sampled_from(["scalar", "npscalar", "tuple", "list", "array", "nptuple"])),
         "shape": draw(st.sampled_from(["int", "npint", "list", "tuple", "array", "float", "nplist"])),
